@@ -47,26 +47,17 @@ pub open spec fn pushed(n: NodeSt, o: NodeSt) -> bool {
 pub ghost enum UpMut { Whiteout { dir: u64, name: Seq<u8> }, Unwhite { dir: u64, name: Seq<u8> }, Opaque { ino: u64 } }
 pub tracked struct Heap { pub ghost nodes: Map<int, NodeSt>, pub ghost log: Seq<UpMut> }
 impl Heap {
-    pub open spec fn live(&self, id: int) -> bool { self.nodes.contains_key(id) }
+    pub open spec fn live(&self, id: int) -> bool { self.nodes.contains_key(id) }     // (quantifiers below spell it out: one trigger shape everywhere)
     pub open spec fn ris(&self, id: int) -> Seq<RealInode> { self.nodes[id].ris }
     pub open spec fn in_upper(&self, id: int) -> bool { self.ris(id).len() > 0 && self.ris(id)[0].in_upper_layer }
     pub open spec fn upper_only(&self, id: int) -> bool { self.ris(id).len() == 1 && self.ris(id)[0].in_upper_layer }
-    // C10: every real inode on record is honest about its layer; a live node has at least one; a parent is live and nearer the root
-    pub open spec fn inv(&self) -> bool {
-        &&& forall|id: int, i: int| self.live(id) && 0 <= i < self.ris(id).len() ==> (#[trigger] self.ris(id)[i]).wf()
-        &&& forall|id: int| #[trigger] self.live(id) ==> self.ris(id).len() > 0
-        &&& forall|id: int| #[trigger] self.live(id) && self.nodes[id].parent is Some ==> self.live(self.nodes[id].parent->Some_0.nid()) && self.nodes[self.nodes[id].parent->Some_0.nid()].depth < self.nodes[id].depth
-                && !self.nodes[self.nodes[id].parent->Some_0.nid()].wh      // nothing hangs below a whiteout
-    }
+    // C10: every real inode on record is honest about its layer; a live node has at least one; a parent is live, nearer the root, visible
+    pub open spec fn inv(&self) -> bool { ninv(self.nodes) }
     // REC (C11): a live, visible node whose path a lower layer still shows keeps a lower real inode on record - that is what do_rm consults
     // (upper_layer_only) to decide whether a whiteout must be left so that the deletion survives a restart
-    pub open spec fn rec_id(&self, id: int) -> bool {
-        self.live(id) && !self.nodes[id].wh && lower_has(self.nodes[id].path) ==> exists|i: int| 0 <= i < self.ris(id).len() && !(#[trigger] self.ris(id)[i]).in_upper_layer
-    }
+    pub open spec fn rec_id(&self, id: int) -> bool { nrec(self.nodes, id) }
     // the record is kept: every node visible afterwards - new, or visible and in order before, or a whiteout before - is in order
-    pub open spec fn rec_pres(&self, o: Heap) -> bool {
-        forall|k: int| #[trigger] self.live(k) && (o.live(k) ==> o.nodes[k].wh || o.rec_id(k)) ==> self.rec_id(k)
-    }
+    pub open spec fn rec_pres(&self, o: Heap) -> bool { nrec_pres(self.nodes, o.nodes) }
     // nothing but node `id` changed, and that node only in its real inodes / whiteout flag
     pub open spec fn only_node(&self, o: Heap, id: int) -> bool {
         &&& self.nodes.dom() == o.nodes.dom() && self.log == o.log
@@ -77,12 +68,24 @@ impl Heap {
     // are untouched, no node disappears or moves, nothing is logged
     pub open spec fn up_frame(&self, o: Heap, id: int) -> bool {
         &&& self.log == o.log
-        &&& forall|k: int| #[trigger] o.live(k) ==> self.live(k) && self.nodes[k].parent == o.nodes[k].parent && self.nodes[k].depth == o.nodes[k].depth && self.nodes[k].path == o.nodes[k].path
+        &&& forall|k: int| #[trigger] o.nodes.contains_key(k) ==> self.nodes.contains_key(k) && self.nodes[k].parent == o.nodes[k].parent && self.nodes[k].depth == o.nodes[k].depth && self.nodes[k].path == o.nodes[k].path
                 && (self.nodes[k] == o.nodes[k] || k == id || pushed(self.nodes[k], o.nodes[k]))
-        &&& forall|k: int| !o.live(k) ==> !#[trigger] self.live(k)
-        &&& forall|k: int| o.live(k) && k != id && o.nodes[k].depth >= o.nodes[id].depth ==> #[trigger] self.nodes[k] == o.nodes[k]
-        &&& forall|k: int| #[trigger] o.live(k) && o.in_upper(k) ==> self.nodes[k] == o.nodes[k]
+        &&& forall|k: int| !o.nodes.contains_key(k) ==> !#[trigger] self.nodes.contains_key(k)
+        &&& forall|k: int| o.nodes.contains_key(k) && k != id && o.nodes[k].depth >= o.nodes[id].depth ==> #[trigger] self.nodes[k] == o.nodes[k]
+        &&& forall|k: int| #[trigger] o.nodes.contains_key(k) && o.in_upper(k) ==> self.nodes[k] == o.nodes[k]
     }
+}
+pub open spec fn ninv(n: Map<int, NodeSt>) -> bool {
+    &&& forall|id: int, i: int| n.contains_key(id) && 0 <= i < n[id].ris.len() ==> (#[trigger] n[id].ris[i]).wf()
+    &&& forall|id: int| #[trigger] n.contains_key(id) ==> n[id].ris.len() > 0
+    &&& forall|id: int| #[trigger] n.contains_key(id) && n[id].parent is Some ==> n.contains_key(n[id].parent->Some_0.nid()) && n[n[id].parent->Some_0.nid()].depth < n[id].depth
+            && !n[n[id].parent->Some_0.nid()].wh      // nothing hangs below a whiteout
+}
+pub open spec fn nrec(n: Map<int, NodeSt>, id: int) -> bool {
+    n.contains_key(id) && !n[id].wh && lower_has(n[id].path) ==> exists|i: int| 0 <= i < n[id].ris.len() && !(#[trigger] n[id].ris[i]).in_upper_layer
+}
+pub open spec fn nrec_pres(n: Map<int, NodeSt>, o: Map<int, NodeSt>) -> bool {
+    forall|k: int| #[trigger] n.contains_key(k) && (o.contains_key(k) ==> o[k].wh || nrec(o, k)) ==> nrec(n, k)
 }
 // "a lower layer still shows an entry at this overlay path" (the union of the lower layers alone); lower layers never change (C10), so
 // this is a fact about the path
@@ -105,7 +108,7 @@ impl FlagCell {
     pub uninterp spec fn id(&self) -> int;
     pub uninterp spec fn cfg(&self) -> bool;      // flags of the OverlayFs itself (no_open, ..): fixed after init
     #[verifier::external_body] pub fn load(&self, o: Ordering, Tracked(vxh): Tracked<&mut Heap>) -> (r: bool)
-        ensures *final(vxh) == *old(vxh), old(vxh).live(self.id()) ==> r == old(vxh).nodes[self.id()].wh, !old(vxh).live(self.id()) ==> r == self.cfg() { unimplemented!() }
+        ensures *final(vxh) == *old(vxh), old(vxh).nodes.contains_key(self.id()) ==> r == old(vxh).nodes[self.id()].wh, !old(vxh).nodes.contains_key(self.id()) ==> r == self.cfg() { unimplemented!() }
 }
 '''
 
@@ -113,7 +116,7 @@ NODE = r'''
 impl OverlayInode {
     pub open spec fn nid(&self) -> int { self.real_inodes.id() }
     pub open spec fn cells_ok(&self) -> bool { self.whiteout.id() == self.nid() }       // the node's flag cell is keyed like the node
-    pub open spec fn node_ok(&self, vxh: Heap) -> bool { self.cells_ok() && vxh.live(self.nid()) && vxh.nodes[self.nid()].path == self.path@ }
+    pub open spec fn node_ok(&self, vxh: Heap) -> bool { self.cells_ok() && vxh.nodes.contains_key(self.nid()) && vxh.nodes[self.nid()].path == self.path@ }
     pub uninterp spec fn s_stat(&self, ctx: Context, vxh: Heap) -> Result<stat64>;
     // ---- the node operations of unit ovl_merge, restated over the heap (S-HEAP)
     #[verifier::external_body] pub fn in_upper_layer(&self, Tracked(vxh): Tracked<&mut Heap>) -> (r: bool)
@@ -124,7 +127,7 @@ impl OverlayInode {
         requires old(vxh).ris(self.nid()).len() > 0      // panics on a node without real inodes ("BUG: dangling OverlayInode")
         ensures *final(vxh) == *old(vxh), r.0 == old(vxh).ris(self.nid())[0].layer && r.1 == old(vxh).ris(self.nid())[0].in_upper_layer && r.2 == old(vxh).ris(self.nid())[0].inode { unimplemented!() }
     #[verifier::external_body] pub fn add_upper_inode(&self, ri: RealInode, clear_lowers: bool, Tracked(vxh): Tracked<&mut Heap>)
-        requires old(vxh).live(self.nid())
+        requires old(vxh).nodes.contains_key(self.nid())
         ensures final(vxh).only_node(*old(vxh), self.nid()), final(vxh).nodes[self.nid()].wh == ri.whiteout,
             final(vxh).ris(self.nid()) == (if clear_lowers { seq![ri] } else { seq![ri] + old(vxh).ris(self.nid()) }) { unimplemented!() }
     #[verifier::external_body] pub fn stat64(&self, ctx: &Context, Tracked(vxh): Tracked<&mut Heap>) -> (r: Result<stat64>)
@@ -135,10 +138,10 @@ impl OverlayInode {
             old(vxh).ris(self.nid()).len() > 0 ==> r is Ok && (r->Ok_0 is Some <==> old(vxh).ris(self.nid())[0].in_upper_layer) && (r->Ok_0 is Some ==> *r->Ok_0->Some_0 == old(vxh).ris(self.nid())[0]) { unimplemented!() }
     // `self.parent.lock().unwrap().upgrade()`
     #[verifier::external_body] pub fn parent_node(&self, Tracked(vxh): Tracked<&mut Heap>) -> (r: Option<Arc<OverlayInode>>)
-        ensures *final(vxh) == *old(vxh), r == old(vxh).nodes[self.nid()].parent, r is Some ==> r->Some_0.cells_ok() && (old(vxh).live(r->Some_0.nid()) ==> r->Some_0.node_ok(*old(vxh))) { unimplemented!() }
+        ensures *final(vxh) == *old(vxh), r == old(vxh).nodes[self.nid()].parent, r is Some ==> r->Some_0.cells_ok() && (old(vxh).nodes.contains_key(r->Some_0.nid()) ==> r->Some_0.node_ok(*old(vxh))) { unimplemented!() }
     // OverlayInode::new_from_real_inode: a fresh node holding that one real inode
     #[verifier::external_body] pub fn new_from_real_inode(name: &str, ino: u64, path: String, real_inode: RealInode, Tracked(vxh): Tracked<&mut Heap>) -> (r: Self)
-        ensures !old(vxh).live(r.nid()) && r.cells_ok() && r.inode == ino && r.path@ == path@ && r.name@ == name@ && final(vxh).log == old(vxh).log,
+        ensures !old(vxh).nodes.contains_key(r.nid()) && r.cells_ok() && r.inode == ino && r.path@ == path@ && r.name@ == name@ && final(vxh).log == old(vxh).log,
             final(vxh).nodes == old(vxh).nodes.insert(r.nid(), NodeSt { ris: seq![real_inode], wh: real_inode.whiteout, parent: None, depth: 0, path: path@ }) { unimplemented!() }
     // the children table (the live view's bookkeeping: not part of what is decided here)
     #[verifier::external_body] pub fn child(&self, name: &str, Tracked(vxh): Tracked<&mut Heap>) -> (r: Option<Arc<OverlayInode>>) ensures *final(vxh) == *old(vxh) { unimplemented!() }
@@ -147,7 +150,7 @@ impl OverlayInode {
     #[verifier::external_body] pub fn count_entries_and_whiteout(&self, ctx: &Context, Tracked(vxh): Tracked<&mut Heap>) -> (r: Result<(u64, u64)>) ensures *final(vxh) == *old(vxh) { unimplemented!() }
     // `node.childrens.lock().unwrap().values().cloned().collect::<Vec<_>>()`: the children, each a live node one level below
     #[verifier::external_body] pub fn kids_snapshot(&self, Tracked(vxh): Tracked<&mut Heap>) -> (r: Vec<Arc<OverlayInode>>)
-        ensures *final(vxh) == *old(vxh), forall|i: int| 0 <= i < r@.len() ==> old(vxh).live((#[trigger] r@[i]).nid()) && r@[i].cells_ok() && old(vxh).nodes[r@[i].nid()].depth > old(vxh).nodes[self.nid()].depth { unimplemented!() }
+        ensures *final(vxh) == *old(vxh), forall|i: int| 0 <= i < r@.len() ==> old(vxh).nodes.contains_key((#[trigger] r@[i]).nid()) && r@[i].cells_ok() && old(vxh).nodes[r@[i].nid()].depth > old(vxh).nodes[self.nid()].depth { unimplemented!() }
 }
 pub assume_specification<T> [Option::<T>::replace] (o: &mut Option<T>, v: T) -> (r: Option<T>) ensures *final(o) == Some(v), r == *old(o);
 #[verifier::external_body] pub struct Utf8Error { _p: u8 }
@@ -157,7 +160,8 @@ pub assume_specification<T> [Option::<T>::replace] (o: &mut Option<T>, v: T) -> 
 #[verifier::external_body] pub fn vx_tempfile() -> (r: File) ensures r.data().len() == 0 && r.pos() == 0 { unimplemented!() }
 pub fn drop<T>(x: T) { }
 // CStr::to_string_lossy().to_string(): the name as a String (UTF-8 names: same bytes)
-#[verifier::external_body] pub fn cstr_to_string_lossy(c: &CStr) -> (r: String) ensures str_bytes(r@) == c@ { unimplemented!() }
+pub uninterp spec fn lossy_str(b: Seq<u8>) -> Seq<char>;
+#[verifier::external_body] pub fn cstr_to_string_lossy(c: &CStr) -> (r: String) ensures r@ == lossy_str(c@) { unimplemented!() }
 '''
 
 FSM = r'''
@@ -170,17 +174,35 @@ impl OverlayFs {
         &&& self.upper_layer is None ==> forall|l: LayerObj| !#[trigger] l.is_upper()
     }
     // ---- bookkeeping of the live view (inode table, children tables): contract only; they do not touch real inodes, flags or the log
+    // the inode table / children tables as far as the contracts need them: which node a (parent number, name) pair resolves to, and the path
+    // of the directory behind a number
+    pub uninterp spec fn s_node(&self, parent: u64, name: Seq<char>) -> Arc<OverlayInode>;
+    pub uninterp spec fn path_of_ino(&self, ino: u64) -> Seq<char>;
+    pub open spec fn child_path(&self, parent: u64, name: Seq<char>) -> Seq<char> { if name.len() == 0 { self.path_of_ino(parent) } else { path_join_spec(self.path_of_ino(parent), name) } }
+    // what a lookup leaves behind: old nodes as they were, new nodes (a directory was loaded) in order [seam S-REC-SCAN]
+    pub open spec fn lookup_frame(o: Heap, n: Heap) -> bool {
+        &&& n.inv() && n.log == o.log
+        &&& forall|k: int| #[trigger] o.nodes.contains_key(k) ==> n.nodes.contains_key(k) && n.nodes[k] == o.nodes[k]
+        &&& forall|k: int| #[trigger] n.nodes.contains_key(k) && !o.nodes.contains_key(k) ==> n.rec_id(k)
+    }
     #[verifier::external_body] fn lookup_node(&self, ctx: &Context, parent: Inode, name: &str, Tracked(vxh): Tracked<&mut Heap>) -> (r: Result<Arc<OverlayInode>>)
         requires old(vxh).inv()
-        ensures final(vxh).inv() && final(vxh).log == old(vxh).log, forall|k: int| old(vxh).live(k) ==> final(vxh).live(k) && final(vxh).nodes[k] == old(vxh).nodes[k],
-            r is Ok ==> final(vxh).live(r->Ok_0.nid()) && r->Ok_0.cells_ok() { unimplemented!() }
+        ensures OverlayFs::lookup_frame(*old(vxh), *final(vxh)),
+            r is Ok ==> r->Ok_0 == self.s_node(parent, name@) && r->Ok_0.node_ok(*final(vxh)) && r->Ok_0.path@ == self.child_path(parent, name@) { unimplemented!() }
+    // [seam S-SCAN-COMPLETE] a loaded directory has a node for every name a lower layer shows in it
     #[verifier::external_body] fn lookup_node_ignore_enoent(&self, ctx: &Context, parent: u64, name: &str, Tracked(vxh): Tracked<&mut Heap>) -> (r: Result<Option<Arc<OverlayInode>>>)
         requires old(vxh).inv()
-        ensures final(vxh).inv() && final(vxh).log == old(vxh).log, forall|k: int| old(vxh).live(k) ==> final(vxh).live(k) && final(vxh).nodes[k] == old(vxh).nodes[k],
-            r is Ok && r->Ok_0 is Some ==> final(vxh).live(r->Ok_0->Some_0.nid()) && r->Ok_0->Some_0.cells_ok() { unimplemented!() }
+        ensures OverlayFs::lookup_frame(*old(vxh), *final(vxh)),
+            r is Ok && r->Ok_0 is Some ==> r->Ok_0->Some_0 == self.s_node(parent, name@) && r->Ok_0->Some_0.node_ok(*final(vxh)) && r->Ok_0->Some_0.path@ == self.child_path(parent, name@),
+            r is Ok && r->Ok_0 is None ==> !lower_has(self.child_path(parent, name@)),
+            r is Ok ==> (r->Ok_0 is Some <==> self.has_node(parent, name@)) { unimplemented!() }
+    pub uninterp spec fn has_node(&self, parent: u64, name: Seq<char>) -> bool;
     #[verifier::external_body] fn load_directory(&self, ctx: &Context, node: &Arc<OverlayInode>, Tracked(vxh): Tracked<&mut Heap>) -> (r: Result<()>)
         requires old(vxh).inv()
-        ensures final(vxh).inv() && final(vxh).log == old(vxh).log, forall|k: int| old(vxh).live(k) ==> final(vxh).live(k) && final(vxh).nodes[k] == old(vxh).nodes[k] { unimplemented!() }
+        ensures OverlayFs::lookup_frame(*old(vxh), *final(vxh)) { unimplemented!() }
+    #[verifier::external_body] fn empty_node_directory(&self, ctx: &Context, node: Arc<OverlayInode>, Tracked(vxh): Tracked<&mut Heap>) -> (r: Result<()>)
+        requires old(vxh).inv(), self.fs_wf(), grant_all_args()
+        ensures OverlayFs::lookup_frame(*old(vxh), *final(vxh)) { unimplemented!() }
     #[verifier::external_body] fn alloc_inode(&self, path: &String, Tracked(vxh): Tracked<&mut Heap>) -> (r: Result<u64>) ensures *final(vxh) == *old(vxh) { unimplemented!() }
     #[verifier::external_body] fn insert_inode(&self, inode: u64, node: Arc<OverlayInode>, Tracked(vxh): Tracked<&mut Heap>) ensures *final(vxh) == *old(vxh) { unimplemented!() }
     #[verifier::external_body] fn remove_inode(&self, inode: u64, path_removed: Option<String>, Tracked(vxh): Tracked<&mut Heap>) -> (r: Option<Arc<OverlayInode>>) ensures *final(vxh) == *old(vxh) { unimplemented!() }
@@ -259,6 +281,11 @@ pub open spec fn grant_all_args() -> bool {
     &&& forall|l: LayerObj, i: u64, p: u64, n: Seq<u8>| #[trigger] l.may_link(i, p, n)
     &&& forall|l: LayerObj, p: u64, n: Seq<u8>| #[trigger] l.may_unlink(p, n)
     &&& forall|l: LayerObj, p: u64, n: Seq<u8>| #[trigger] l.may_rmdir(p, n)
+    &&& forall|l: LayerObj, i: u64, hd: u64, sz: u32, o: u64, lo: Option<u64>, dw: bool, fl: u32, ff: u32, d: Seq<u8>| #[trigger] l.may_write(i, hd, sz, o, lo, dw, fl, ff, d)
+    &&& forall|l: LayerObj, i: u64, a: stat64, hd: Option<u64>, v: SetattrValid| #[trigger] l.may_setattr(i, a, hd, v)
+    &&& forall|l: LayerObj, i: u64, n: Seq<u8>, v: Seq<u8>, f: u32| #[trigger] l.may_setxattr(i, n, v, f)
+    &&& forall|l: LayerObj, i: u64, n: Seq<u8>| #[trigger] l.may_removexattr(i, n)
+    &&& forall|l: LayerObj, i: u64, hd: u64, m: u32, o: u64, len: u64| #[trigger] l.may_fallocate(i, hd, m, o, len)
 }
 '''
 
@@ -282,26 +309,39 @@ UP_COMMON_REQ = ['old(vxh).inv()']
 REC_CLAUSE = 'final(vxh).rec_pres(*old(vxh)) // [C11.%s.lower_record] every visible node still records whether a lower layer has an entry at its path (a later delete must leave a whiteout there)'
 UP_COMMON_ENS = ['final(vxh).inv() // [C10.ops.inv] every real inode on record still names its true layer']
 
+RM_AFTER_COPY = '''let ghost hc = *vxh; let ghost iw = hc.log.len() as int;
+        proof {
+            assert(hc.nodes.contains_key(nd));
+            if nd != pn && hb.rec_id(nd) && lower_has(hb.nodes[nd].path) && !hb.nodes[nd].wh {
+                let i0 = choose|i: int| 0 <= i < hb.ris(nd).len() && !(#[trigger] hb.ris(nd)[i]).in_upper_layer;
+                if hc.nodes[nd] != hb.nodes[nd] { assert(pushed(hc.nodes[nd], hb.nodes[nd])); assert(hc.ris(nd)[i0 + 1] == hb.ris(nd)[i0]); }
+                assert(!hc.upper_only(nd));
+            }
+        }'''
+RM_END = '''proof {
+            if need_whiteout { assert(vxh.log[iw] == (UpMut::Whiteout { dir: hc.ris(pn)[0].inode, name: name@ })); }
+            assert(vxh.nodes[pn] == hc.nodes[pn]); assert(vxh.nodes[nd] == hc.nodes[nd]);
+        }'''
 CUD_END = '''proof {
             let h0 = *old(vxh); let me = self.nid();
             assert(h1.inv());
             assert(vxh.only_node(h1, me));
-            assert(forall|id: int| vxh.live(id) <==> h1.live(id));
+            assert(forall|id: int| vxh.nodes.contains_key(id) <==> h1.nodes.contains_key(id));
             assert(vxh.ris(me) == seq![vxh.ris(me)[0]] + h1.ris(me));
-            assert forall|id: int, i: int| vxh.live(id) && 0 <= i < vxh.ris(id).len() implies (#[trigger] vxh.ris(id)[i]).wf() by {
-                if id == me { if i > 0 { assert(vxh.ris(me)[i] == h1.ris(me)[i - 1]); assert(h1.ris(me)[i - 1].wf()); } else { assert(vxh.ris(me)[0].wf()); } } else { assert(vxh.nodes[id] == h1.nodes[id]); assert(h1.live(id)); assert(h1.ris(id)[i].wf()); }
+            assert forall|id: int, i: int| vxh.nodes.contains_key(id) && 0 <= i < vxh.ris(id).len() implies (#[trigger] vxh.ris(id)[i]).wf() by {
+                if id == me { if i > 0 { assert(vxh.ris(me)[i] == h1.ris(me)[i - 1]); assert(h1.ris(me)[i - 1].wf()); } else { assert(vxh.ris(me)[0].wf()); } } else { assert(vxh.nodes[id] == h1.nodes[id]); assert(h1.nodes.contains_key(id)); assert(h1.ris(id)[i].wf()); }
             }
-            assert forall|id: int| #[trigger] vxh.live(id) implies vxh.ris(id).len() > 0 by { if id != me { assert(vxh.nodes[id] == h1.nodes[id]); assert(h1.live(id)); } else { assert(vxh.ris(me).len() == 1 + h1.ris(me).len()); } }
-            assert forall|id: int| #[trigger] vxh.live(id) && vxh.nodes[id].parent is Some implies vxh.live(vxh.nodes[id].parent->Some_0.nid()) && vxh.nodes[vxh.nodes[id].parent->Some_0.nid()].depth < vxh.nodes[id].depth by {
-                let p = vxh.nodes[id].parent->Some_0.nid(); assert(h1.live(id)); assert(vxh.nodes[p].depth == h1.nodes[p].depth && vxh.nodes[id].depth == h1.nodes[id].depth);
+            assert forall|id: int| #[trigger] vxh.nodes.contains_key(id) implies vxh.ris(id).len() > 0 by { if id != me { assert(vxh.nodes[id] == h1.nodes[id]); assert(h1.nodes.contains_key(id)); } else { assert(vxh.ris(me).len() == 1 + h1.ris(me).len()); } }
+            assert forall|id: int| #[trigger] vxh.nodes.contains_key(id) && vxh.nodes[id].parent is Some implies vxh.nodes.contains_key(vxh.nodes[id].parent->Some_0.nid()) && vxh.nodes[vxh.nodes[id].parent->Some_0.nid()].depth < vxh.nodes[id].depth by {
+                let p = vxh.nodes[id].parent->Some_0.nid(); assert(h1.nodes.contains_key(id)); assert(vxh.nodes[p].depth == h1.nodes[p].depth && vxh.nodes[id].depth == h1.nodes[id].depth);
             }
-            assert forall|k: int| h0.live(k) && k != me && h0.nodes[k].depth >= h0.nodes[me].depth implies #[trigger] vxh.nodes[k] == h0.nodes[k] by { assert(h1.nodes[k] == h0.nodes[k]); }
-            assert forall|k: int| #[trigger] h0.live(k) && h0.in_upper(k) implies vxh.nodes[k] == h0.nodes[k] by { assert(h1.nodes[k] == h0.nodes[k]); }
+            assert forall|k: int| h0.nodes.contains_key(k) && k != me && h0.nodes[k].depth >= h0.nodes[me].depth implies #[trigger] vxh.nodes[k] == h0.nodes[k] by { assert(h1.nodes[k] == h0.nodes[k]); }
+            assert forall|k: int| #[trigger] h0.nodes.contains_key(k) && h0.in_upper(k) implies vxh.nodes[k] == h0.nodes[k] by { assert(h1.nodes[k] == h0.nodes[k]); }
             assert(vxh.ris(me).skip(1) =~= h0.ris(me));
             assert(h1.up_frame(h0, pnode.nid()) || h1 == h0);
             assert(vxh.log == h0.log);
-            assert forall|k: int| #[trigger] h0.live(k) implies vxh.live(k) && vxh.nodes[k].parent == h0.nodes[k].parent && vxh.nodes[k].depth == h0.nodes[k].depth by { assert(h1.live(k)); }
-            assert forall|k: int| !h0.live(k) implies !#[trigger] vxh.live(k) by { assert(!h1.live(k)); }
+            assert forall|k: int| #[trigger] h0.nodes.contains_key(k) implies vxh.nodes.contains_key(k) && vxh.nodes[k].parent == h0.nodes[k].parent && vxh.nodes[k].depth == h0.nodes[k].depth by { assert(h1.nodes.contains_key(k)); }
+            assert forall|k: int| !h0.nodes.contains_key(k) implies !#[trigger] vxh.nodes.contains_key(k) by { assert(!h1.nodes.contains_key(k)); }
         }'''
 
 
@@ -331,7 +371,7 @@ def unit(root='/repo'):
     items.append(Raw(FSM + CAPS))
 
     cud = tok(Fn(OVL, OI, 'create_upper_dir', props=['C11'], canary=True, sig_subst=SELF_ARC, body_resub=[OTHERSTR],
-                 requires=UP_COMMON_REQ + ['old(vxh).live(self.nid())', '!old(vxh).nodes[self.nid()].wh', 'mode_umask is None', 'grant_up_mkdir(*old(vxh), *ctx) // [C11.create_upper_dir.cap] directories made on the way up: the node\'s own name, its own mode, umask 0'],
+                 requires=UP_COMMON_REQ + ['old(vxh).nodes.contains_key(self.nid())', '!old(vxh).nodes[self.nid()].wh', 'mode_umask is None', 'grant_up_mkdir(*old(vxh), *ctx) // [C11.create_upper_dir.cap] directories made on the way up: the node\'s own name, its own mode, umask 0'],
                  ensures=UP_COMMON_ENS + [
                      'final(vxh).up_frame(*old(vxh), self.nid()) // [C11.create_upper_dir.frame] only this node and ancestors that were not in the upper layer change',
                      'r is Ok ==> final(vxh).in_upper(self.nid()) // [C11.create_upper_dir.in_upper] afterwards the node has an upper directory',
@@ -345,7 +385,7 @@ def unit(root='/repo'):
     cud.body_hooks = [PARENT, R.r29_inline_upper_closure(0)]
     items.append(Group('impl OverlayInode {', [cud]))
 
-    COPY_REQ = UP_COMMON_REQ + ['old(vxh).live(node.nid())', '!old(vxh).nodes[node.nid()].wh', 'grant_up_mkdir(*old(vxh), *ctx)']
+    COPY_REQ = UP_COMMON_REQ + ['old(vxh).nodes.contains_key(node.nid())', '!old(vxh).nodes[node.nid()].wh', 'grant_up_mkdir(*old(vxh), *ctx)']
     COPY_ENS = UP_COMMON_ENS + [
         'final(vxh).up_frame(*old(vxh), node.nid()) // [C11.copy_up.frame]',
         'r is Ok ==> r->Ok_0 == node && final(vxh).in_upper(node.nid()) // [C11.copy_up.in_upper] after a successful copy-up the node stands on an upper object',
@@ -354,19 +394,19 @@ def unit(root='/repo'):
     REC = [REC_CLAUSE % 'copy_up'] if CHECK_LOWER_RECORD else []
     FRAME_END = '''proof {
             let h0 = *old(vxh); let me = node.nid();
-            assert(h1.inv()); assert(vxh.only_node(h1, me)); assert(forall|id: int| vxh.live(id) <==> h1.live(id));
-            assert forall|id: int, i: int| vxh.live(id) && 0 <= i < vxh.ris(id).len() implies (#[trigger] vxh.ris(id)[i]).wf() by {
-                if id != me { assert(vxh.nodes[id] == h1.nodes[id]); assert(h1.live(id)); assert(h1.ris(id)[i].wf()); }
+            assert(h1.inv()); assert(vxh.only_node(h1, me)); assert(forall|id: int| vxh.nodes.contains_key(id) <==> h1.nodes.contains_key(id));
+            assert forall|id: int, i: int| vxh.nodes.contains_key(id) && 0 <= i < vxh.ris(id).len() implies (#[trigger] vxh.ris(id)[i]).wf() by {
+                if id != me { assert(vxh.nodes[id] == h1.nodes[id]); assert(h1.nodes.contains_key(id)); assert(h1.ris(id)[i].wf()); }
             }
-            assert forall|id: int| #[trigger] vxh.live(id) implies vxh.ris(id).len() > 0 by { if id != me { assert(vxh.nodes[id] == h1.nodes[id]); assert(h1.live(id)); } }
-            assert forall|id: int| #[trigger] vxh.live(id) && vxh.nodes[id].parent is Some implies vxh.live(vxh.nodes[id].parent->Some_0.nid()) && vxh.nodes[vxh.nodes[id].parent->Some_0.nid()].depth < vxh.nodes[id].depth by {
-                let p = vxh.nodes[id].parent->Some_0.nid(); assert(h1.live(id)); assert(vxh.nodes[p].depth == h1.nodes[p].depth && vxh.nodes[id].depth == h1.nodes[id].depth);
+            assert forall|id: int| #[trigger] vxh.nodes.contains_key(id) implies vxh.ris(id).len() > 0 by { if id != me { assert(vxh.nodes[id] == h1.nodes[id]); assert(h1.nodes.contains_key(id)); } }
+            assert forall|id: int| #[trigger] vxh.nodes.contains_key(id) && vxh.nodes[id].parent is Some implies vxh.nodes.contains_key(vxh.nodes[id].parent->Some_0.nid()) && vxh.nodes[vxh.nodes[id].parent->Some_0.nid()].depth < vxh.nodes[id].depth by {
+                let p = vxh.nodes[id].parent->Some_0.nid(); assert(h1.nodes.contains_key(id)); assert(vxh.nodes[p].depth == h1.nodes[p].depth && vxh.nodes[id].depth == h1.nodes[id].depth);
             }
-            assert forall|k: int| h0.live(k) && k != me && h0.nodes[k].depth >= h0.nodes[me].depth implies #[trigger] vxh.nodes[k] == h0.nodes[k] by { assert(h1.nodes[k] == h0.nodes[k]); }
-            assert forall|k: int| #[trigger] h0.live(k) && h0.in_upper(k) implies vxh.nodes[k] == h0.nodes[k] by { assert(h1.nodes[k] == h0.nodes[k]); }
+            assert forall|k: int| h0.nodes.contains_key(k) && k != me && h0.nodes[k].depth >= h0.nodes[me].depth implies #[trigger] vxh.nodes[k] == h0.nodes[k] by { assert(h1.nodes[k] == h0.nodes[k]); }
+            assert forall|k: int| #[trigger] h0.nodes.contains_key(k) && h0.in_upper(k) implies vxh.nodes[k] == h0.nodes[k] by { assert(h1.nodes[k] == h0.nodes[k]); }
             assert(h1.up_frame(h0, parent_node.nid()) || h1 == h0);
-            assert forall|k: int| #[trigger] h0.live(k) implies vxh.live(k) && vxh.nodes[k].parent == h0.nodes[k].parent && vxh.nodes[k].depth == h0.nodes[k].depth by { assert(h1.live(k)); }
-            assert forall|k: int| !h0.live(k) implies !#[trigger] vxh.live(k) by { assert(!h1.live(k)); }
+            assert forall|k: int| #[trigger] h0.nodes.contains_key(k) implies vxh.nodes.contains_key(k) && vxh.nodes[k].parent == h0.nodes[k].parent && vxh.nodes[k].depth == h0.nodes[k].depth by { assert(h1.nodes.contains_key(k)); }
+            assert forall|k: int| !h0.nodes.contains_key(k) implies !#[trigger] vxh.nodes.contains_key(k) by { assert(!h1.nodes.contains_key(k)); }
             // (were the lower real inodes kept behind the upper copy, the record would be kept with them)
             if vxh.ris(me).len() == h1.ris(me).len() + 1 && (forall|j: int| 0 <= j < h1.ris(me).len() ==> vxh.ris(me)[j + 1] == #[trigger] h1.ris(me)[j]) && h1.rec_id(me) && lower_has(h1.nodes[me].path) {
                 let i = choose|i: int| 0 <= i < h1.ris(me).len() && !(#[trigger] h1.ris(me)[i]).in_upper_layer;
@@ -374,8 +414,8 @@ def unit(root='/repo'):
                 assert(vxh.rec_id(me));
             }
             assert(h1.rec_pres(h0));
-            assert forall|k: int| #[trigger] vxh.live(k) && k != me && (h0.live(k) ==> h0.nodes[k].wh || h0.rec_id(k)) implies vxh.rec_id(k) by {
-                assert(vxh.nodes[k] == h1.nodes[k]); assert(h1.live(k)); assert(h1.rec_id(k));
+            assert forall|k: int| #[trigger] vxh.nodes.contains_key(k) && k != me && (h0.nodes.contains_key(k) ==> h0.nodes[k].wh || h0.rec_id(k)) implies vxh.rec_id(k) by {
+                assert(vxh.nodes[k] == h1.nodes[k]); assert(h1.nodes.contains_key(k)); assert(h1.rec_id(k));
             }
         }'''
     SNAP = 'let ghost h1 = *vxh; proof { assert(parent_node.nid() != node.nid()); assert(h1.nodes[node.nid()] == old(vxh).nodes[node.nid()]); assert(h1.up_frame(*old(vxh), parent_node.nid()) || h1 == *old(vxh)); assert(h1.up_frame(*old(vxh), node.nid())); }'
@@ -408,6 +448,42 @@ def unit(root='/repo'):
                  requires=COPY_REQ + ['grant_up_symlink(*old(vxh), *ctx, *node)', 'grant_up_create(*old(vxh), *ctx, *node)', 'grant_up_write(*old(vxh), *node)'],
                  ensures=COPY_ENS + REC))
     items.append(Group('impl OverlayFs {', [csu, cru, cnu]))
+
+    # ---- operations: C10 (which layer) + the C11 decisions
+    OP_REQ = ['self.fs_wf()', 'old(vxh).inv()', 'grant_all_args()']
+    NO_UPPER = 'self.upper_layer is None ==> r is Err && err_is(r->Err_0, 30) && *final(vxh) == *old(vxh) // [C10.%s.no_upper] without an upper layer: EROFS, nothing done'
+    NEWLOG = 'exists|i: int| old(vxh).log.len() <= i < final(vxh).log.len() && (#[trigger] final(vxh).log[i])'
+    mk = tok(Fn(OVL, OF, 'do_mkdir', props=['C10'], canary=True,
+                requires=OP_REQ + ['parent_node.node_ok(*old(vxh))', 'self.path_of_ino(parent_node.inode) == parent_node.path@', 'name@.len() > 0'],
+                ensures=UP_COMMON_ENS + [NO_UPPER % 'do_mkdir',
+                    '({ let n = self.s_node(parent_node.inode, name@); r is Ok && self.has_node(parent_node.inode, name@) && old(vxh).nodes.contains_key(n.nid()) && old(vxh).in_upper(n.nid()) ==> %s == (UpMut::Unwhite { dir: final(vxh).ris(parent_node.nid())[0].inode, name: str_bytes(name@) }) }) // [C11.do_mkdir.unwhite] a whiteout of that name in the upper directory is removed first' % NEWLOG]
+                    + ([
+                    'r is Ok && lower_has(path_join_spec(parent_node.path@, name@)) ==> %s is Opaque // [C11.do_mkdir.opaque_when_lower] a directory made where a lower layer still shows an entry is marked opaque: the old contents do not come back' % NEWLOG,
+                    REC_CLAUSE % 'do_mkdir'] if CHECK_LOWER_RECORD else []),
+                splices=[('let mut new_node = None;', 'before', 'let ghost h2 = *vxh; let ghost iw = h2.log.len() as int; let ghost mut iop: int = 0; proof { assert(pnode == *parent_node); }'),
+                         ('let ino = self.alloc_inode(&path, Tracked(vxh))?;', 'before', 'proof { if delete_whiteout { assert(vxh.log.len() == iw + 1); assert(vxh.log[iw] == (UpMut::Unwhite { dir: h2.ris(pnode.nid())[0].inode, name: str_bytes(name@) })); } }'),
+                         ('let ovi = OverlayInode::new_from_real_inode(name, ino, path.clone(), child_dir, Tracked(vxh));', 'before', 'proof { iop = vxh.log.len() - 1; if set_opaque { assert(vxh.log[iop] is Opaque); } }'),
+                         ('Ok(())\n    }', 'before', 'proof { if delete_whiteout { assert(vxh.log[iw] == (UpMut::Unwhite { dir: h2.ris(pnode.nid())[0].inode, name: str_bytes(name@) })); } if set_opaque { assert(vxh.log[iop] is Opaque); } assert(vxh.nodes[pnode.nid()] == h2.nodes[pnode.nid()]); }')],
+                ), path_callees=['new_from_real_inode'])
+    mk.locate = R.presub_locate(OF, 'do_mkdir', [('format!("{}/{}", pnode.path, name)', 'path_join(pnode.path.as_str(), name)', 'the child path as a model call (R7 would erase it)')])
+    mk.body_hooks = [R.r29_inline_upper_closure(0)]
+    rm = tok(Fn(OVL, OF, 'do_rm', props=['C10'], canary=True,
+                requires=OP_REQ + ['str_bytes(lossy_str(name@)) == name@    // the name is UTF-8 (to_string_lossy changes nothing)'],
+                ensures=UP_COMMON_ENS + [NO_UPPER % 'do_rm']
+                    + ([
+                    '''({ let nd = self.s_node(parent, lossy_str(name@)); let pn = self.s_node(parent, Seq::<char>::empty());
+                        r is Ok && nd.nid() != pn.nid() && lower_has(final(vxh).nodes[nd.nid()].path) && !final(vxh).ris(pn.nid())[0].opaque && (old(vxh).nodes.contains_key(nd.nid()) ==> old(vxh).rec_id(nd.nid()))
+                            ==> %s == (UpMut::Whiteout { dir: final(vxh).ris(pn.nid())[0].inode, name: name@ }) }) // [C11.do_rm.whiteout_when_lower] removing a name a lower layer still shows leaves a whiteout in the upper directory (unless that directory is opaque): the deletion survives a restart''' % NEWLOG,
+                    REC_CLAUSE % 'do_rm'] if CHECK_LOWER_RECORD else []),
+                splices=[('let node = self.lookup_node(ctx, parent, sname.as_str(), Tracked(vxh))?;', 'after', 'let ghost nd = node.nid(); let ghost pn = pnode.nid(); proof { reveal_strlit(""); assert(""@ =~= Seq::<char>::empty()); }'),
+                         ('let mut need_whiteout = true;', 'before', 'let ghost hb = *vxh;'),
+                         ('if node.upper_layer_only(Tracked(vxh)) {', 'before', RM_AFTER_COPY),
+                         ('Ok(())\n    }', 'before', RM_END)],
+                ), path_callees=['new_from_real_inode'])
+    rm.locate = R.presub_locate(OF, 'do_rm', [('format!("{}/{}", pnode.path, sname)', 'path_join(pnode.path.as_str(), sname.as_str())', 'the child path as a model call (R7 would erase it)'),
+                                              ('name.to_string_lossy().to_string()', 'cstr_to_string_lossy(name)', 'CStr::to_string_lossy().to_string() as one model call')])
+    rm.body_hooks = [R.r29_inline_upper_closure(0), R.r29_inline_upper_closure(0)]
+    items.append(Group('impl OverlayFs {', [mk, rm]))
     u = Unit('ovl_ops', items, preludes=['base.rs', 'stdmodel.rs'], generic_tags=dict(C.GENERIC_TAGS, read_all=['C11'], all_bytes=['C11']), notes='; '.join(notes))
     u.prelude_subst = [('use std::collections::HashMap;', '')]
     return u
